@@ -185,6 +185,15 @@ def extract(src):
     so = src[src.index("constexpr Container& sort("):src.index("namespace utils")]
     need(r"for \(auto i = 0u; i < std::size\(c\) - 1; i\+\+\)\s*\{\s*if \(p\(c\[i \+ 1\], c\[i\]\)\)", so, "stdex sort swap test")
     need(r"stdex::sort\(gi\.rule_infos, \[\]\(const auto& ri1, const auto& ri2\) \{ return ri1\.l_idx < ri2\.l_idx; \}\);", src, "stdex sort of rule_infos")
+    # namespace utils (Model/Utils.v)
+    ut = src[src.index("namespace utils"):src.index("namespace ftors")]
+    need(r"while \(\*str1 == \*str2\)\s*\{\s*if \(\*str1 == 0\)\s*return true;\s*str1\+\+; str2\+\+;\s*\}\s*return false;", ut, "utils str_equal loop")
+    need(r"size_t i = 0;\s*while \(\*str\)\s*\{\s*if \(\*str == c\)\s*return i;\s*str\+\+; i\+\+;\s*\}\s*return uninitialized;", ut, "utils find_char loop")
+    need(r"for \(const auto& n : table\)\s*\{\s*if \(str_equal\(n, str\)\)\s*return res;\s*res\+\+;\s*\}\s*if \(res == N\)\s*throw std::runtime_error\(\"string not found\"\);", ut, "utils find_str loop")
+    need(r"if \(idx_to_char\(i\) > 32 && idx_to_char\(i\) < 127\)", ut, "utils char_names printable bounds")
+    need(r"arr\[i\]\[0\] = '\\\\';\s*arr\[i\]\[1\] = 'x';\s*arr\[i\]\[2\] = d\[i / 16\];\s*arr\[i\]\[3\] = d\[i % 16\];", ut, "utils char_names hex form")
+    need(r"return static_cast<size_t>\(static_cast<unsigned char>\(c\)\) & 0xff;", ut, "utils char_to_idx")
+    need(r"return dd\(d1\) \* 16 \+ dd\(d2\);", src, "regex hex_digits_to_char")
     return out
 
 def emit(facts):
